@@ -78,7 +78,7 @@ CHECKS = {
          "4 C12"),
  "C14": ("model_checking",
          "model checking of the token-class abstraction (all {n,1} sequences vs the real blacklist) + exhaustive conformance of the abstraction to the code (all short identifiers, all word/number sequences to length 7/8, all shape fillings)",
-         "All 62 class sequences over {bareword, number} of length 1-5 are absent from the current blacklist (real look-up); every identifier of length <=3 in three case forms that is not a key or key component lexes to one bareword, digit runs to one number; every sequence of up to 7 (8 thorough) items over a 10-item set is not SQLi and folds to its first five classes; every filling of 32 calibrated benign shapes is not SQLi.",
+         "All 62 class sequences over {bareword, number} of length 1-5 are absent from the current blacklist (real look-up); every identifier of length <=3 in three case forms that is not a key or key component lexes to one bareword, digit runs to one number; every sequence of up to 7 (8 thorough) items over a 10-item set is not SQLi and folds to its first five classes; every filling of 32 calibrated benign shapes is not SQLi; one word or number of every length 1..400 and around the size constants, and one plain word = filler^L + a keyword spelling for every L in 1..120 and -34..+34 around 2^7..2^16 and every new integer constant (a suffix of a word is never a keyword), are not SQLi.",
          "Admissibility is computed from the current table. The shape list was calibrated once on the repaired pinned tree.",
          "4 C14"),
  "C16": ("model_checking",
